@@ -212,7 +212,7 @@ func c07Profile(rng *rand.Rand) gen.Profile {
 	case 1:
 		p = gen.Profile{Txt: 1, DeleteBias: 35, MaxDepth: 1, Unicode: true, MaxText: 20}
 	case 2:
-		p = gen.Profile{Tree: 1, DeleteBias: 35, MaxDepth: 1}
+		p = gen.Profile{Tree: 1, DeleteBias: 35, MaxDepth: 1, TreeMixed: rng.Intn(2) == 0}
 	case 3:
 		p = gen.Profile{Obj: 2, Cnt: 2, DeleteBias: 20, MaxDepth: 3, NewContainers: 25, NoDedup: true}
 	}
